@@ -1,1 +1,375 @@
 //! verif-hooks: intfns area (read-only accessors; see mod.rs)
+//!
+//! `BigUint`/`BigRat` live in private modules of `crate::num`, so a number
+//! with a chosen raw representation (sign, numerator limbs, denominator
+//! limbs, `Small` or `Large`, leading zero limbs allowed) is built through the
+//! existing `Number::deserialize` and results are read back through
+//! `serialize`. Only existing `pub(crate)` methods are called; nothing here
+//! adds state or changes behaviour.
+
+use crate::ast::{BitwiseBop, Bop};
+use crate::interrupt::Never;
+use crate::num::verif_access::BigUint;
+use crate::num::Number;
+use crate::result::FResult;
+use crate::DecimalSeparatorStyle;
+
+/// Raw `BigUint`: `large == false` means `Small(limbs[0])`.
+#[derive(Clone, Debug, PartialEq, Eq)]
+pub struct RawUint {
+	/// `Large(limbs)` if true, else `Small(limbs[0])`
+	pub large: bool,
+	/// little-endian limbs
+	pub limbs: Vec<u64>,
+}
+
+/// Raw `BigRat`.
+#[derive(Clone, Debug, PartialEq, Eq)]
+pub struct RawRat {
+	/// `Sign::Negative`
+	pub neg: bool,
+	/// numerator
+	pub num: RawUint,
+	/// denominator
+	pub den: RawUint,
+}
+
+/// Outcome of a hooked operation.
+#[derive(Clone, Debug, PartialEq, Eq)]
+pub enum Out {
+	/// a real rational result (imaginary part zero, not a multiple of pi)
+	Rat(RawRat),
+	/// a raw big integer (direct `BigUint` operations)
+	Uint(RawUint),
+	/// a machine integer
+	Usize(u64),
+	/// text
+	Text(String),
+	/// `FendError`: variant name and message
+	Err(String, String),
+	/// the request could not be expressed (bad op name / unreadable result)
+	Bad(String),
+}
+
+fn put_uint(buf: &mut Vec<u8>, u: &RawUint) {
+	if u.large {
+		buf.push(2);
+		buf.extend_from_slice(&(u.limbs.len() as u64).to_be_bytes());
+		for l in &u.limbs {
+			buf.extend_from_slice(&l.to_be_bytes());
+		}
+	} else {
+		buf.push(1);
+		buf.extend_from_slice(&u.limbs.first().copied().unwrap_or(0).to_be_bytes());
+	}
+}
+
+fn put_rat(buf: &mut Vec<u8>, r: &RawRat) {
+	buf.push(if r.neg { 1 } else { 2 });
+	put_uint(buf, &r.num);
+	put_uint(buf, &r.den);
+}
+
+fn small(n: u64) -> RawUint {
+	RawUint {
+		large: false,
+		limbs: vec![n],
+	}
+}
+
+/// Raw complex number: real and imaginary part, each a rational or a
+/// rational multiple of pi.
+#[derive(Clone, Debug, PartialEq, Eq)]
+pub struct RawCplx {
+	/// real part
+	pub re: RawRat,
+	/// real part is `Pattern::Pi`
+	pub re_pi: bool,
+	/// imaginary part
+	pub im: RawRat,
+	/// imaginary part is `Pattern::Pi`
+	pub im_pi: bool,
+}
+
+fn mk(r: &RawRat) -> Option<Number> {
+	mkc(&RawCplx {
+		re: r.clone(),
+		re_pi: false,
+		im: RawRat {
+			neg: false,
+			num: small(0),
+			den: small(1),
+		},
+		im_pi: false,
+	})
+}
+
+fn mkc(c: &RawCplx) -> Option<Number> {
+	let mut buf = Vec::new();
+	// Dist: one part (Complex, probability)
+	buf.extend_from_slice(&1u64.to_be_bytes());
+	buf.push(if c.re_pi { 2 } else { 1 }); // real: Pattern::Simple / Pattern::Pi
+	put_rat(&mut buf, &c.re);
+	buf.push(if c.im_pi { 2 } else { 1 });
+	put_rat(&mut buf, &c.im);
+	put_rat(
+		&mut buf,
+		&RawRat {
+			neg: false,
+			num: small(1),
+			den: small(1),
+		},
+	);
+	buf.extend_from_slice(&0u64.to_be_bytes()); // Unit: no components
+	buf.push(1); // exact
+	buf.push(5); // Base::Plain(10)
+	buf.push(10);
+	buf.push(7); // FormattingStyle::Auto
+	buf.push(1); // simplifiable
+	Number::deserialize(&mut buf.as_slice()).ok()
+}
+
+struct Rd<'a>(&'a [u8]);
+impl Rd<'_> {
+	fn u8(&mut self) -> Option<u8> {
+		let (a, b) = self.0.split_first()?;
+		self.0 = b;
+		Some(*a)
+	}
+	fn u64(&mut self) -> Option<u64> {
+		if self.0.len() < 8 {
+			return None;
+		}
+		let (a, b) = self.0.split_at(8);
+		self.0 = b;
+		Some(u64::from_be_bytes(a.try_into().ok()?))
+	}
+	fn uint(&mut self) -> Option<RawUint> {
+		match self.u8()? {
+			1 => Some(small(self.u64()?)),
+			2 => {
+				let n = self.u64()?;
+				let mut limbs = Vec::new();
+				for _ in 0..n {
+					limbs.push(self.u64()?);
+				}
+				Some(RawUint { large: true, limbs })
+			}
+			_ => None,
+		}
+	}
+	fn rat(&mut self) -> Option<RawRat> {
+		let neg = match self.u8()? {
+			1 => true,
+			2 => false,
+			_ => return None,
+		};
+		Some(RawRat {
+			neg,
+			num: self.uint()?,
+			den: self.uint()?,
+		})
+	}
+	/// Complex = Real Real; only Pattern::Simple with zero imaginary part
+	fn complex_real(&mut self) -> Option<RawRat> {
+		if self.u8()? != 1 {
+			return None;
+		}
+		let re = self.rat()?;
+		if self.u8()? != 1 {
+			return None;
+		}
+		let im = self.rat()?;
+		if im.num.limbs.iter().any(|&l| l != 0) {
+			return None;
+		}
+		Some(re)
+	}
+}
+
+fn raw(n: &Number) -> Out {
+	let mut buf = Vec::new();
+	if n.serialize(&mut buf).is_err() {
+		return Out::Bad("serialize".to_string());
+	}
+	let mut rd = Rd(&buf);
+	if rd.u64() != Some(1) {
+		return Out::Bad("not a one-point distribution".to_string());
+	}
+	match rd.complex_real() {
+		Some(r) => Out::Rat(r),
+		None => Out::Bad("not a real rational".to_string()),
+	}
+}
+
+fn fin<T>(r: FResult<T>, f: impl FnOnce(T) -> Out) -> Out {
+	match r {
+		Ok(v) => f(v),
+		Err(e) => {
+			let dbg = format!("{e:?}");
+			let kind: String = dbg
+				.chars()
+				.take_while(|c| c.is_ascii_alphanumeric() || *c == '_')
+				.collect();
+			Out::Err(kind, e.to_string())
+		}
+	}
+}
+
+const DS: DecimalSeparatorStyle = DecimalSeparatorStyle::Dot;
+
+/// The representation that reaches the `BigRat`-level functions after the
+/// unit-scaling pass every `Number` method performs first
+/// (`into_unitless_complex`).
+#[must_use]
+pub fn reach(a: &RawRat) -> Out {
+	let Some(a) = mk(a) else {
+		return Out::Bad("deserialize".to_string());
+	};
+	fin(a.into_unitless_complex(DS, &Never), |c| {
+		let mut buf = Vec::new();
+		if c.serialize(&mut buf).is_err() {
+			return Out::Bad("serialize".to_string());
+		}
+		match Rd(&buf).complex_real() {
+			Some(r) => Out::Rat(r),
+			None => Out::Bad("not a real rational".to_string()),
+		}
+	})
+}
+
+/// Unary operations: `factorial floor ceil round fibonacci try_as_usize words`.
+#[must_use]
+pub fn unary(op: &str, a: &RawRat) -> Out {
+	unary_num(op, mk(a))
+}
+
+/// Same as [`unary`] on a raw complex number.
+#[must_use]
+pub fn unary_c(op: &str, a: &RawCplx) -> Out {
+	unary_num(op, mkc(a))
+}
+
+fn unary_num(op: &str, a: Option<Number>) -> Out {
+	let Some(a) = a else {
+		return Out::Bad("deserialize".to_string());
+	};
+	let int = &Never;
+	match op {
+		"factorial" => fin(a.factorial(DS, int), |v| raw(&v)),
+		"floor" => fin(a.floor(int), |v| raw(&v)),
+		"ceil" => fin(a.ceil(int), |v| raw(&v)),
+		"round" => fin(a.round(int), |v| raw(&v)),
+		"fibonacci" => fin(a.fibonacci(DS, int), |v| raw(&v)),
+		"try_as_usize" => fin(a.try_as_usize(DS, int), |v| Out::Usize(v as u64)),
+		"words" => fin(
+			a.into_unitless_complex(DS, int)
+				.and_then(|c| c.try_as_real())
+				.and_then(|r| r.try_as_biguint(int))
+				.and_then(|u| u.to_words(int)),
+			Out::Text,
+		),
+		_ => Out::Bad(format!("unknown unary op {op}")),
+	}
+}
+
+/// Binary operations: `and or xor shl shr mod ncr npr`.
+#[must_use]
+pub fn binary(op: &str, a: &RawRat, b: &RawRat) -> Out {
+	binary_num(op, mk(a), mk(b))
+}
+
+/// Same as [`binary`] on raw complex numbers.
+#[must_use]
+pub fn binary_c(op: &str, a: &RawCplx, b: &RawCplx) -> Out {
+	binary_num(op, mkc(a), mkc(b))
+}
+
+fn binary_num(op: &str, a: Option<Number>, b: Option<Number>) -> Out {
+	let (Some(a), Some(b)) = (a, b) else {
+		return Out::Bad("deserialize".to_string());
+	};
+	let bop = match op {
+		"and" => Bop::Bitwise(BitwiseBop::And),
+		"or" => Bop::Bitwise(BitwiseBop::Or),
+		"xor" => Bop::Bitwise(BitwiseBop::Xor),
+		"shl" => Bop::Bitwise(BitwiseBop::LeftShift),
+		"shr" => Bop::Bitwise(BitwiseBop::RightShift),
+		"mod" => Bop::Mod,
+		"ncr" => Bop::Combination,
+		"npr" => Bop::Permutation,
+		_ => return Out::Bad(format!("unknown binary op {op}")),
+	};
+	let mut ctx = crate::Context::new();
+	fin(
+		a.bop(bop, b, crate::Attrs::default(), &mut ctx, &Never),
+		|v| raw(&v),
+	)
+}
+
+fn to_big(u: &RawUint) -> BigUint {
+	if u.large {
+		BigUint::Large(u.limbs.clone())
+	} else {
+		BigUint::Small(u.limbs.first().copied().unwrap_or(0))
+	}
+}
+
+fn from_big(b: &BigUint) -> Out {
+	Out::Uint(match b {
+		BigUint::Small(n) => small(*n),
+		BigUint::Large(v) => RawUint {
+			large: true,
+			limbs: v.clone(),
+		},
+	})
+}
+
+/// `BigUint` methods called directly on a raw representation:
+/// `factorial try_as_usize words fibonacci` (the last takes a `Small`).
+#[must_use]
+pub fn uint_unary(op: &str, a: &RawUint) -> Out {
+	let int = &Never;
+	let big = to_big(a);
+	match op {
+		"factorial" => fin(big.factorial(int), |v| from_big(&v)),
+		"try_as_usize" => fin(big.try_as_usize(int), |v| Out::Usize(v as u64)),
+		"words" => fin(big.to_words(int), Out::Text),
+		"fibonacci" => match big {
+			BigUint::Small(n) => match usize::try_from(n) {
+				Ok(n) => fin(BigUint::fibonacci(n, int), |v| from_big(&v)),
+				Err(_) => Out::Bad("fibonacci argument does not fit usize".to_string()),
+			},
+			BigUint::Large(_) => Out::Bad("fibonacci takes a usize".to_string()),
+		},
+		_ => Out::Bad(format!("unknown uint unary op {op}")),
+	}
+}
+
+/// `BigUint` methods called directly: `and or xor shl shr`.
+#[must_use]
+pub fn uint_binary(op: &str, a: &RawUint, b: &RawUint) -> Out {
+	let int = &Never;
+	let (a, b) = (to_big(a), to_big(b));
+	match op {
+		"and" => from_big(&a.bitwise_and(&b)),
+		"or" => from_big(&a.bitwise_or(&b)),
+		"xor" => from_big(&a.bitwise_xor(&b)),
+		"shl" => fin(a.lshift_n(&b, int), |v| from_big(&v)),
+		"shr" => fin(a.rshift_n(&b, int), |v| from_big(&v)),
+		_ => Out::Bad(format!("unknown uint binary op {op}")),
+	}
+}
+
+/// Evaluates an expression with the normal evaluator (fresh context) and
+/// returns the raw representation of the resulting number, if it is a real
+/// rational: used to see which limb representation a computed argument has.
+#[must_use]
+pub fn eval_raw(input: &str) -> Out {
+	let mut ctx = crate::Context::new();
+	let r = crate::eval::evaluate_to_value(input, None, crate::Attrs::default(), &mut ctx, &Never);
+	fin(r, |v| match v {
+		crate::value::Value::Num(n) => raw(&n),
+		_ => Out::Bad("not a number".to_string()),
+	})
+}
